@@ -535,6 +535,7 @@ def run(ctx):
     ctx.require('timeouts_judged', 20)
     ctx.require('disconnected_judged', 5)
     ctx.require('emits_judged', 5)
+    ctx.require('connect_time_arrival_scenarios', 10)
     ctx.extra['scenarios'] = {}
     limit = 1200 if ctx.tier == 'quick' else 40000
     order = [0, 5, 8, 1, 6, 9, 2, 7, 10, 3, 4]
@@ -555,6 +556,87 @@ def run(ctx):
         k = random_batch(ctx, k, 200)
 
 
+def connect_arrivals(ctx, k):
+    """Events that arrive while the application is still inside connect()
+    (the server emits from its connect handler; the reader thread / task
+    dispatches them before connect() returns) are events like any other:
+    receive() must return them, in arrival order."""
+    import socketio
+    from vlib import refcodec as RR
+    rng = ctx.case_rng(3 * 10 ** 7 + k)
+    kind = 'sync' if k % 2 == 0 else 'async'
+    n_after = rng.randint(1, 3)
+    pre = rng.random() < 0.3
+    ns = rng.choice(['/', '/a'])
+
+    class Srv:
+        def on_packet(self, h, pkt):
+            if pkt['type'] != RR.CONNECT:
+                return
+            if pre:
+                h.deliver(RR.EVENT, pkt['nsp'], None, ['ev', 'pre'])
+            h.deliver(RR.CONNECT, pkt['nsp'], None, {'sid': 's1'})
+            for i in range(n_after):
+                h.deliver(RR.EVENT, pkt['nsp'], None, ['ev', i])
+    h = E.make_client(kind, script=Srv(), client_kw={'reconnection': False})
+    eager = False
+    results = []
+    try:
+        if kind == 'async':
+            class SCli(socketio.AsyncSimpleClient):
+                client_class = staticmethod(lambda *a, **kw: h.c)
+
+            async def go():
+                sc = SCli()
+                await sc.connect('http://x', namespace=ns)
+                for _ in range(n_after + 2):
+                    try:
+                        results.append(await sc.receive(timeout=1))
+                    except Exception as e:
+                        results.append(type(e).__name__)
+                        break
+            h.run(go(), horizon=20)
+        else:
+            class SCli(socketio.SimpleClient):
+                client_class = staticmethod(lambda *a, **kw: h.c)
+            sc = SCli()
+            sc.connected_event = E.HEvent(h, 'connected_event')
+            sc.input_event = E.HEvent(h, 'input_event')
+            eager = rng.random() < 0.7
+            h.eager_after_connect = eager
+            h.call(sc.connect, 'http://x', namespace=ns)
+            h.eager_after_connect = False
+            for _ in range(n_after + 2):
+                try:
+                    results.append(h.call(sc.receive, timeout=1))
+                except Exception as e:
+                    results.append(type(e).__name__)
+                    break
+    finally:
+        h.close()
+    ctx.count('connect_time_arrival_scenarios')
+    got = [r[1] for r in results if isinstance(r, list)]
+    want = list(range(n_after))
+    w = {'part': 'connect_arrivals', 'case_index': k, 'kind': kind,
+         'namespace': ns, 'event_before_ack': pre, 'events_after_ack': want,
+         'read_loop_before_connect_returns': eager, 'results': results,
+         'errors': h.all_errors()[:3]}
+    if h.all_errors():
+        ctx.violation(None, 'connect-time arrivals: error escaped (%s)' %
+                      h.all_errors()[0]['exc'], w)
+    elif [g for g in got if g != 'pre'] != want or (
+            'pre' in got and got[0] != 'pre'):
+        ctx.violation(None, 'events that arrived while connect() was in '
+                      'progress: receive() returned %r, arrival order was '
+                      '%s%r' % (got, "'pre', " if pre else '', want), w)
+    elif results[-1] != 'TimeoutError':
+        ctx.violation(None, 'receive() after the last event ended with %r'
+                      % (results[-1],), w)
+    else:
+        ctx.case(('connect_arrivals', kind, ns, pre, n_after, eager),
+                 {'part': 'connect_arrivals', 'results': results})
+
+
 def random_batch(ctx, k, n):
     for _ in range(n):
         if ctx.out_of_time() or ctx.too_many_violations():
@@ -571,5 +653,23 @@ def random_batch(ctx, k, n):
         if k % 3 == 0:
             explore_async(ctx, spec, 1, rng=rng)
         ctx.count('random_scenarios')
+        if k % 5 == 0:
+            connect_arrivals(ctx, k)
         k += 1
     return k
+
+
+def replay(ctx, w):
+    wi = w['witness']
+    if wi.get('part') == 'connect_arrivals':
+        return connect_arrivals(ctx, wi['case_index'])
+    spec, choices = wi['scenario'], wi.get('choices') or []
+    if wi.get('kind') == 'async':
+        sc = AsyncScenario(ctx, spec, choices, None)
+    else:
+        sc = SyncScenario(ctx, spec, choices, None, None)
+    try:
+        sc.run()
+        sc.judge()
+    finally:
+        sc.close()
